@@ -25,7 +25,8 @@ mixed do_op (string s);
 
 // destruct(carrier) in progress: the driver applies this in every inventory item before it removes the carrier from
 // the heart-beat list; the script may touch any heart beat, including the dying carrier's ("wake on inventory change").
-// Only non-failing, non-destructing operations are run here (restrict_destruct would refuse destruct of others).
+// No destructing operations here (restrict_destruct would refuse destruct of others); an uncaught error (err) leaves
+// destruct_object: the carrier and the remaining items stay alive.
 int move_or_destruct (object dest) {
   string me = oid;
   string s = "/c11/reg"->script (me, "md");
@@ -34,7 +35,7 @@ int move_or_destruct (object dest) {
   if (stringp (s))
     foreach (string op in explode (s, ";")) {
       string k = explode (op, ",")[0];
-      if (k == "shb" || k == "q" || k == "clone" || k == "flag" || k == "hbs") do_op (op);
+      if (k == "shb" || k == "q" || k == "clone" || k == "flag" || k == "hbs" || k == "err" || k == "cerr") do_op (op);
     }
   VL ("hookend " + me);
   return 0;   // not moved: the driver destructs this object
@@ -51,17 +52,29 @@ int parse_int (string s) {
 }
 
 void run (string s) {
-  foreach (string op in explode (s, ";")) {
-    do_op (op);
-    if (!this_object ()) return;   // destructed itself: the script stops
+  string me = oid;
+  string *ops = explode (s, ";");
+  int i;
+  for (i = 0; i < sizeof (ops); i++) {
+    do_op (ops[i]);
+    if (!this_object ()) {
+      // destructed itself: the script stops - except that an error can still be raised on the way out
+      if (i + 1 < sizeof (ops) && ops[i + 1] == "err") error ("boom " + me + "\n");
+      return;
+    }
   }
 }
 
 void beat () {
+  int ec = eval_cost ();            // first thing: how much evaluation cost is left at entry
   string me = oid;
   string s;
   int k = nb++;
+  object tp = this_player ();
   VL ("beat " + me);
+  // the context the driver set up for this call: living(), this_player(), evaluation cost untouched
+  VL ("ctx " + me + " " + (living (this_object ()) ? "1" : "0") + " " + (tp ? "/c11/reg"->oid_of (tp) : "-") + " "
+      + (max_eval_cost () - ec < 100 ? "full" : "low"));
   s = "/c11/reg"->script (me, "hb:" + k);
   if (!stringp (s)) s = "/c11/reg"->script (me, "hb:*");
   if (stringp (s)) run (s);
@@ -109,6 +122,31 @@ mixed do_op (string s) {
   case "err":
     error ("boom " + me + "\n");
     break;
+  case "cerr":    // the error is caught: error_handler leaves through its catch branch
+    catch (error ("boom " + me + "\n"));
+    break;
+  case "reload":  // reload,<target>,<n>: reload_object(); create() of the target runs again and does set_heart_beat(n)
+    ob = "/c11/reg"->get (w[1]);
+    if (!ob || !clonep (ob)) { VL ("r reload " + me + " " + w[1] + " !none"); break; }
+    "/c11/reg"->set_pending (w[1], parse_int (w[2]));
+    reload_object (ob);
+    VL ("r reload " + me + " " + w[1] + " " + w[2] + " " + query_heart_beat (ob));
+    break;
+  case "living":
+    enable_commands ();
+    VL ("r living " + me);
+    break;
+  case "rp":      // replace_program by the inherited program that has no heart_beat(); applied at the top of the backend loop
+    if (!clonep (this_object ()) || !sizeof (inherit_list (this_object ()))) { VL ("r rp " + me + " !none"); break; }
+    replace_program ("/c11/base");
+    VL ("r rp " + me);
+    break;
+  case "burn": {  // use up evaluation cost
+    int i, x = 0;
+    for (i = 0; i < 400; i++) x += i;
+    VL ("r burn " + me);
+    break;
+  }
   case "flag":
     uptime ();      // the harness' time(NULL) sets heart_beat_flag: the timer fired
     VL ("r flag " + me);
